@@ -18,10 +18,10 @@ CHECKS = {
              text="Decides the three clauses structurally for every history: append removes entries >= the new index before every push; snapshot compaction keeps exactly entries > the recorded snapshot index; last index/term falls back to the snapshot only for an empty log.", ref="§5 C31"),
  "C03": dict(tech="identity-flow (def-use) of the cache key and cached value; normaliser verified against delimiter/whitespace sets read from cypher.pest; call-graph purity of parse_query",
              text="Decides jointly sufficient conditions on every path of cached_parse: key identity up to a whitespace normaliser that provably acts only outside string/comment-bearing queries and only on grammar whitespace; stored value = parse of the same string; hit returns its clone; parse is pure.", ref="§5 C03"),
- "C24": dict(tech="control-dependence of the accepting return on a classifier call over the same string; classifier body checked to return only false or !plan(parse(stmt)).is_write; sibling check is_mutating operators vs planner is_write",
-             text="Decides, for every path of text_to_cypher, that a statement is handed back only when plan(parse(stmt)).is_write is false (parse/plan failure rejects), and cross-checks that every operator declaring is_mutating()=true is planned with is_write=true. Sufficient for the property given the planner's classification is right.", ref="§5 C24"),
- "C23": dict(tech="data-dependence of the routing branch on an engine classifier (not text predicates); dominance of the is_write refusal in the read executor; CHA call-graph unreachability of index-manager mutators from the read path",
-             text="Decides that both front ends route on the engine's own plan classification of the executed string, that the read executor refuses write plans before pulling operators, and that no interior-mutable index mutator is reachable from it. Row/JSON equality between front ends is not decided.", ref="§5 C23"),
+ "C24": dict(tech="control-dependence of the accepting return on a classifier call over the same string; classifier body checked to return only false or !plan(parse(stmt)).is_write; derived mutating-operator set (what next_mut can reach) vs the is_write of every ExecutionPlan literal rooted in such an operator (forward taint + per-path flag fixpoint)",
+             text="Decides, for every path of text_to_cypher, that a statement is handed back only when plan(parse(stmt)).is_write is false (parse/plan failure rejects), and that every plan whose root is built from an operator able to reach a store/index mutator is marked is_write on the path that builds it. Sufficient for the property up to the operators' own effects (C04).", ref="§5 C24"),
+ "C23": dict(tech="data-dependence of the routing branch on an engine classifier (not text predicates); dominance of the is_write refusal in the read executor; CHA call-graph unreachability of index-manager mutators from the read path; planner marks every plan rooted in a mutating operator (shared with C24)",
+             text="Decides that both front ends route, on every path, on the engine's own plan classification of the executed string, that this classification marks every plan built from a mutating operator, that the read executor refuses write plans before pulling operators, and that no interior-mutable index mutator is reachable from it. Row/JSON equality between front ends is not decided.", ref="§5 C23"),
  "C17": dict(tech="CFG rule on scan loops (record uses behind key-vs-prefix test), dominance of tenant validation over RocksDB calls, separator agreement from format templates",
              text="Decides isolation structurally for every accepted tenant id: scans stop at the prefix, ids containing the separator are rejected before any key is built, all key builders / prefixes / listing share the separator.", ref="§5 C17"),
  "C15": dict(tech="error-handling idiom rule on read sites, def-use of the sequence initialiser to a record-decoding function, field-coverage effect rule, write-order dominance",
@@ -60,8 +60,8 @@ CHECKS = {
              text="Decides refusal of connected plain DELETE, that write operators surface store errors, that MERGE always searches before creating, and which existence decisions ignore the column store (known finding).", ref="§5 C04"),
  "C05": dict(tech="must-pass-through of a compensating store write on every error exit of each write driver (callers of dyn next_batch_mut outside the operator tree); shared discarded-Result rule",
              text="Decides the necessary condition for statement atomicity — some compensation on every error exit after the first pull — which fails today (known finding), and that failures are not swallowed.", ref="§5 C05"),
- "C25": dict(tech="consumer classification of every numeric parse Result in the parser (including call sites of the generic parse helper), cast sinks on parsed numbers",
-             text="Decides the numeric clause: every numeral/bound parse is surfaced as an error, never unwrapped, defaulted or dropped, and parsed numbers are not narrowed. The no-panic clause over pest pairs is reported as inventory only.", ref="§5 C25"),
+ "C25": dict(tech="consumer classification of every numeric parse Result in the parser (including call sites of the generic parse helper), cast sinks on parsed numbers; panic-site inventory justified by grammar facts read from cypher.pest; dominance of the nesting-depth guard over the recursive parse",
+             text="Decides the numeric clause: every numeral/bound parse is surfaced as an error, never unwrapped, defaulted or dropped, and parsed numbers are not narrowed. The no-panic clause is decided as: every panic-capable site over pest pairs is justified by a grammar fact or a reviewed entry, and nesting depth is bounded before the recursive parser runs.", ref="§5 C25"),
  "C35": dict(tech="HIR arm facts for every match on Expression::Parameter and for substitute_expr (variant coverage, recursion into Expression-typed children from ADT facts), order of substitution vs planning",
              text="Decides the only ways a parameterised run could silently differ: a defaulting evaluation arm, inexact/non-recursive substitution, or planning before substitution.", ref="§5 C35"),
  "C12": dict(tech="HIR arm facts of the two codec functions (tag literals, constructed variants), identity-op classification of the String arm, def-use of the label argument to create_node*, serde-struct constant flow for record kinds; shared C06/C07 rules",
